@@ -52,6 +52,9 @@ func init() {
 			{"GlobalCounter", zzselftest.GlobalCounter, 1, []string{"returned:1", "returned:2"}},
 			{"CASBeforeBuild", zzselftest.CASBeforeBuild, 1, []string{"returned:0 3", "returned:1 3", "returned:3 3"}},
 			{"AtomicCounter", zzselftest.AtomicCounter, 1, []string{"returned:0 2", "returned:1 2", "returned:2 2"}},
+			{"PoolEarlyPut", zzselftest.PoolEarlyPut, 1, []string{"returned:aabb", "returned:bbbb"}},
+			{"OnceLazy", zzselftest.OnceLazy, 1, []string{"returned:6"}},
+			{"LateWrite", zzselftest.LateWrite, 1, []string{"returned:early;", "returned:early;late;"}},
 			{"ErrFirst/fail", func() string { return zzselftest.ErrFirst(true) }, 1, []string{"returned:error: bad record 1"}},
 		}
 		bad := 0
@@ -71,6 +74,23 @@ func init() {
 			for _, mode := range []engine.Opts{{Unbounded: true}, {P: 3, M: 3}} {
 				ex := engine.NewExplorer(fn, mode)
 				ex.Subtree(nil)
+				// plus the suspension family: each continuation point of the canonical execution suspended in turn
+				r0, _ := fn(nil)
+				for _, cont := range r0.Continuations {
+					var gid string
+					var k int
+					if i := strings.LastIndex(cont, "#"); i > 0 {
+						gid = cont[:i]
+						fmt.Sscan(cont[i+1:], &k)
+					}
+					var sres string
+					r := zzvs.RunSuspending(nil, gid, k, c.ncpu, func() { sres = c.fn() })
+					obs := r.Outcome
+					if r.Outcome == "returned" {
+						obs += ":" + sres
+					}
+					ex.St.Outcomes[obs]++
+				}
 				var got []string
 				for o := range ex.St.Outcomes {
 					got = append(got, o)
